@@ -167,7 +167,9 @@ func utf16Bytes(s string, bigEndian, bom bool) string {
 // UnreadableTexts derives, from valid documents, texts that should not be readable as JSON (the class is
 // decided afterwards by ReadableJSON, not assumed).
 func UnreadableTexts(r *rand.Rand, valid []string, nonJSON []string, profileTexts []string, perDoc int) []string {
-	out := []string{"", " ", "\n", "\t \r\n", "\x00", "\xff\xfe", "{", "[", "[{", "{\"@id\"", "{\"@id\":", "\"unterminated", "[1,", "{]", "tru", "nul", "-", "{\"a\":1,}", "[,]", "{'a':1}"}
+	out := []string{"", " ", "\n", "\t \r\n", "\x00", "\xff\xfe", "{", "[", "[{", "{\"@id\"", "{\"@id\":", "\"unterminated", "[1,", "{]", "tru", "nul", "-", "{\"a\":1,}", "[,]", "{'a':1}",
+		// texts that BEGIN with a closing delimiter or a separator (the tail of a file whose beginning was lost)
+		"}", "]", "}]", " ]", "\n}\n", ",", ":", "}{}", "][]", "]]", "}}", ",[]", ":{}"}
 	out = append(out, nonJSON...)
 	out = append(out, profileTexts...)
 	for _, d := range valid {
@@ -180,6 +182,12 @@ func UnreadableTexts(r *rand.Rand, valid []string, nonJSON []string, profileText
 			cut := 1 + (len(trim)-2)*k/perDoc
 			out = append(out, trim[:cut])
 		}
+		// proper suffixes (the beginning was lost) and a stray closing delimiter / separator in front of a whole document
+		for k := 1; k < perDoc/2+1; k++ {
+			cut := 1 + (len(trim)-2)*k/(perDoc/2+1)
+			out = append(out, trim[cut:])
+		}
+		out = append(out, pick(r, "}", "]", "} ", "]\n", ",", ":")+trim)
 		// encodings
 		if len(trim) < 4000 {
 			out = append(out, utf16Bytes(trim, false, true), utf16Bytes(trim, true, true), utf16Bytes(trim, false, false), utf16Bytes(trim, true, false))
